@@ -365,7 +365,9 @@ fn sequence_bytes_required(sequence: u64) -> usize {
         mask >>= 8;
     }
 
-    0
+    // The sequence is always written with at least one byte (as in the netcode standard), so that
+    // the smallest encrypted packet still has the minimum size that decode accepts
+    1
 }
 
 fn write_sequence(out: &mut impl io::Write, seq: u64) -> Result<usize, io::Error> {
